@@ -92,7 +92,7 @@ func TestC07(t *testing.T) {
 	}
 	rapidSetup(env.Pick(500, 20000), 7)
 	rapid.Check(t, func(rt *rapid.T) {
-		prog := gogen.Generate(rt, gogen.WildProfile())
+		prog := gogen.Generate(rt, gogen.WildProfile(off))
 		files := map[string]string{"main.go": prog.Main, "prelude.go": gogen.AnalysedPrelude}
 		rec.Case(core.Hash(prog.Main), prog.Feats["wild"] || prog.Feats["recursion"], prog.FeatList(), func() any {
 			return map[string]any{"program_from_first_function": core.Truncate(afterDecls(prog.Main), 50)}
